@@ -51,6 +51,7 @@ class Prop(SeqProp):
         for _ in range(n):
             kind = rng.choice(["buf", "pbuf", "ring"])
             ops = []
+            failing = kind == "pbuf" and rng.random() < 0.3  # the output stream fails now and then (Model/BuffersFail.lean)
             if kind in ("buf", "pbuf"):
                 m = rng.randint(0, 12)
                 perm = list(range(m))
@@ -71,7 +72,9 @@ class Prop(SeqProp):
                         elif r < 0.5:
                             ops.append(f"put {rng.randint(0, m)} 7")  # maybe an emitted serial -> AttributeError
                     else:
-                        if r < 0.25:
+                        if r < 0.04 and failing:
+                            ops.append(f"failat {rng.randint(0, 3)}")  # the k-th value write from now on raises OSError, once
+                        elif r < 0.25:
                             ops.append(rng.choice(["wf", "len", "out"]))
                         elif r < 0.3:
                             ops.append("flush")
@@ -147,8 +150,28 @@ class Prop(SeqProp):
         # the constructor's other parameters (terminator of a printed value, flushing after every print) vary with the case
         variant = sum(len(o) for o in case.ops) % 4
         pb_end = "\n" if variant < 2 else ";;"
+
+        class FailingStream:
+            """forwards to the StringIO; the value writes (not the terminator) are counted and the designated ones raise"""
+
+            def __init__(self):
+                self.att, self.fails = 0, set()
+
+            def write(self, data):
+                if data != pb_end:
+                    k = self.att
+                    self.att += 1
+                    if k in self.fails:
+                        self.fails.discard(k)
+                        raise OSError("the stream cannot be written right now")
+                return sio.write(data)
+
+            def flush(self):
+                pass
+
+        stream = FailingStream() if any(o.startswith("failat") for o in case.ops) else sio
         obj = Buffer() if kind == "buf" else \
-            (PrintBuffer(sio) if variant == 0 else PrintBuffer(sio, print_flush=bool(variant % 2), end=pb_end)) if kind == "pbuf" \
+            (PrintBuffer(stream) if variant == 0 else PrintBuffer(stream, print_flush=bool(variant % 2), end=pb_end)) if kind == "pbuf" \
             else CircularBuffer(1)
         out = []
         ring_hist, ring_cap = [], 1
@@ -173,6 +196,8 @@ class Prop(SeqProp):
                 elif kind == "pbuf":
                     if w[0] == "print":
                         out.append(f"ret {1 if obj.print(int(w[1]), dec_line(w[2])) else 0}")
+                    elif w[0] == "failat":
+                        stream.fails.add(stream.att + int(w[1])); out.append("ok")
                     elif w[0] == "flush":
                         obj.flush(); out.append("ok")
                     elif w[0] == "clear":
@@ -262,6 +287,8 @@ class Prop(SeqProp):
                     exp = f"ret {len(pending)}"
                 if line != exp:
                     return f"op {i} `{op}`: {line!r}, in-order exactly-once emission gives {exp!r}"
+        elif kind == "pbuf" and any(o.startswith("failat") for o in case.ops):
+            return None  # judged by the failing-stream scenarios ("nothing is lost"); here the model is the reference
         elif kind == "pbuf":
             pending, wf, printed = {}, 0, []
             for i, (op, line) in enumerate(zip(case.ops, impl_out)):
